@@ -596,6 +596,7 @@ Definition attempt_prog (ops : list sop) : prog string act :=
    shared variable's lock, the consumer of a SingleOutputChan, the network of a relaxed mailbox) *)
 Inductive envop :=
 | EPush (h : string) (v : val)
+| EPushAt (h : string) (k : val) (v : val)     (* a committed message arrives in mailbox k of a mailboxes map *)
 | EOther (h : string) (b : bool).
 
 Definition leaf_env (e : envop) (l : leaf) : leaf :=
@@ -608,11 +609,22 @@ Definition leaf_env (e : envop) (l : leaf) : leaf :=
   | _, _ => l
   end.
 
-Definition env_handle (e : envop) : string := match e with EPush h _ => h | EOther h _ => h end.
+Definition env_handle (e : envop) : string :=
+  match e with EPush h _ => h | EPushAt h _ _ => h | EOther h _ => h end.
 
 Definition ctx_env (c : ctx) (e : envop) : ctx :=
   match fres c (env_handle e) with
   | Some (inl l) => mkFam (fupd String.eqb (fres c) (env_handle e) (NLeaf (leaf_env e l))) (fdirty c)
+  | Some (inr m) =>
+      match e with
+      | EPushAt h k v =>
+          match fres m k with
+          | Some l => mkFam (fupd String.eqb (fres c) h
+                               (NMap (mkFam (fupd val_eqb (fres m) k (leaf_env (EPush h v) l)) (fdirty m)))) (fdirty c)
+          | None => c
+          end
+      | _ => c
+      end
   | _ => c
   end.
 
